@@ -23,8 +23,11 @@ def run_c18(tier, out):
     # BatchConc.tla: the parallel re-hash of a batch update (one task per node, a shared map behind a read/write lock):
     # every schedule of every batch gives the sequential result; a parent that does not wait for its right child is refuted
     bstates = 0
-    for cfgname, what in (("MC_BatchConc.cfg", "depth 2"), ("MC_BatchConc3.cfg", "depth 3")):
-        r2 = tlc_mc("BatchConc", cfgname, f"mc-batchconc-{what[-1]}", workers=8, timeout=3000)
+    bruns = [("MC_BatchConc.cfg", "depth 2"), ("MC_BatchConc3.cfg", "depth 3")]
+    if not quick:
+        bruns.append(("MC_BatchConc3t.cfg", "depth 3, two leaf values, batches up to 3: 660 342 states"))
+    for cfgname, what in bruns:
+        r2 = tlc_mc("BatchConc", cfgname, f"mc-batchconc-{cfgname[3:-4]}", workers=8, timeout=3000)
         require_mc_ok(r2, f"BatchConc.tla {what}", must_take=["Check", "Read", "Join"])
         bstates += r2["distinct"]
     r3 = tlc_mc("BatchConc", "MC_BatchConc_neg.cfg", "mc-batchconc-neg", workers=2, timeout=900, coverage=False)
